@@ -71,6 +71,8 @@ type target struct {
 	hostile bool
 	// skip reports a known-finding signature whose precondition the input satisfies (optional).
 	skip func(in []byte) string
+	// weight is the relative frequency of the target within its group (default 3).
+	weight int
 	// extra are further corpus entries that need not be accepted (hostile but interesting shapes).
 	extra []seed
 	// gen is an optional structure-aware generator (used for half of the generated inputs).
